@@ -226,6 +226,7 @@ func checkC08() *checkDef {
 				{Pkg: "./proxy", Scenario: "proxy/relay", Params: map[string]any{"backend": "memory"}},
 				{Pkg: "./proxy", Scenario: "proxy/relay", Params: map[string]any{"backend": "file"}},
 				{Pkg: "./proxy", Scenario: "proxy/tunnel-relay", Params: map[string]any{}},
+				{Pkg: "./proxy", Scenario: "proxy/range", Params: map[string]any{"backend": "memory"}},
 			}
 		},
 	}
@@ -390,6 +391,7 @@ func checkC16() *checkDef {
 				{Pkg: "./utils/bytesize", Scenario: "bytesize/enum", Params: map[string]any{"max_len": 5, "max_round_trip": 4096}},
 				{Pkg: "./utils/phc", Scenario: "phc/enum", Params: map[string]any{}, Workers: 8},
 				{Pkg: "./proxy", Scenario: "proxy/connect-targets", Params: map[string]any{}},
+				{Pkg: "./proxy", Scenario: "proxy/odd-targets", Params: map[string]any{}},
 				{Pkg: "./proxy", Scenario: "proxy/range", Params: map[string]any{"backend": "memory"}},
 				{Pkg: "./proxy", Scenario: "proxy/relay", Params: map[string]any{"backend": "memory"}},
 				{Pkg: "./proxy", Scenario: "proxy/tunnel", Params: map[string]any{"backend": "memory", "depth": 2}},
@@ -616,7 +618,11 @@ func checkC01() *checkDef {
 						Init: []string{"S:a:40", "S:b:30"}, Threads: [][]string{{"G:a"}, {"S:b:20"}, {"G:b"}}, Final: []string{"G:a", "G:b"}})
 				}
 			}
-			return []run{{Pkg: "./cache", Scenario: "cache/sched", Params: ps, K: k, E: 1, Horizon: 5000}}
+			return []run{
+				{Pkg: "./cache", Scenario: "cache/sched", Params: ps, K: k, E: 1, Horizon: 5000},
+				{Pkg: "./proxy", Scenario: "proxy/range", Params: map[string]any{"backend": "memory"}},
+				{Pkg: "./proxy", Scenario: "proxy/range", Params: map[string]any{"backend": "file"}},
+			}
 		},
 	}
 }
@@ -700,6 +706,11 @@ func checkC14() *checkDef {
 						Init:    []string{"S:a:300", "S:c:300"},
 						Threads: [][]string{{"S:b:100"}, {"S:d:100"}, {"U:a"}},
 						Final:   []string{"T", "Q", "X"}})
+					// deletes racing the cleanup cycle's scan/removal of expired entries; afterwards every shard must still be usable
+					ps = append(ps, sched{Name: name("cleanup-vs-delete"), cp: base, Prop: "C14",
+						Init:    []string{"Se:a:40", "Se:c:30", "T"},
+						Threads: [][]string{{"D:a"}, {"D:c"}},
+						Final:   []string{"Q", "S:b:10", "G:a", "S:d:10", "G:c", "X"}})
 					// limit and interval change events racing a tick and a store at the limit
 					ps = append(ps, sched{Name: name("config-vs-tick"), cp: base, Prop: "C14",
 						Init:    []string{"S:a:300", "S:c:300"},
